@@ -22,7 +22,7 @@ GRID_T = sorted(set(GRID + [v * sg for v in (1e-6, 0.5, 3.0, 1000.0, 65504.0,
 
 def lattice(tier='quick'):
   pts = []
-  grid = GRID if tier == 'quick' else GRID_T
+  grid = GRID_T
   for bits in (4, 8, 16):
     for sym in (True, False):
       for mn, mx in itertools.combinations_with_replacement(grid, 2):
@@ -60,7 +60,7 @@ def plan(tier, seed):
                'dimension; bias quantization over the same scale grid. '
                'non-trivial = lattice point whose parameters are finite and '
                'differ from the minimum-bound default'),
-      'bounds': {'grid': GRID, 'bits': [4, 8, 16], 'fractions': FRACS},
+      'bounds': {'grid': GRID_T, 'bits': [4, 8, 16], 'fractions': FRACS},
       'alphabet': {'functions': ['tensor_zp_scale_from_min_max',
                                  'uniform_quantize', 'uniform_dequantize',
                                  'symmetric_quantize_bias_tensor']},
